@@ -88,10 +88,11 @@ pub fn generate_c16_profile(seed: u64, thorough: bool, known: &HashSet<String>, 
             }
             7 => {
                 // empty, repeated and fresh values (an update equal to what a cache holds, clearing after a reopen, ...)
-                match rng.weighted(&[3, 2, 2, 5]) {
+                match rng.weighted(&[3, 2, 2, 5, 1]) {
                     0 => Op::SetMeta { bytes: Vec::new() },
                     1 => Op::SetMeta { bytes: b"block:1234".to_vec() },
                     2 => Op::SetMeta { bytes: vec![0u8; 3] },
+                    4 => Op::SetMeta { bytes: { let n = *rng.pick(&[255usize, 256, 4096, 70_000]); rng.bytes(n) } },
                     _ => {
                         let n = 1 + rng.usize_below(24);
                         Op::SetMeta { bytes: rng.bytes(n) }
